@@ -26,7 +26,10 @@ RULE = ('One case = one scenario (1-3 client threads calling queue/pause/unpause
         'every queued event consumed exactly once, per-client FIFO, due order, bounded progress; before_run/after_run once; '
         '<= 1 cycle started after pause() returned; nothing after stop() returned; stop() returns (no logical deadlock); runner '
         'ends by itself when final.  Non-trivial = distinct interleavings (digest of the context-switch sequence) in which the '
-        'runner was pre-empted at least once between two client operations.')
+        'runner was pre-empted at least once between two client operations.  Scenario kinds also: timed (the chart sends delayed internal events, a '
+        'client moves the clock mid-step; the step handed back is about the event announced as consumed) and bound pair (two runners on '
+        'interpreters bound to each other: no logical deadlock, exactly-once in-order delivery); a cycle begun after pause() returned counts '
+        'as under way only if the runner had looked at the pause flag since the previous cycle.')
 ASSUMPTIONS = ['clients other than the one calling start() begin after start() has returned (start() is not raced against stop())',
                'controlled mode explores interleavings at the interposed points only (Event operations, thread start/join/is_alive, '
                'sleep, execute_once boundaries, hooks, bisect/insert gap, queue list mutators)',
